@@ -31,6 +31,11 @@ func fillOutcome(out *kit.Outcome, c *Config, w *World, a *Asm) {
 		}
 	}
 
+	for _, st := range a.Stubs {
+		out.Fault("lower-response-reordered", st.Reordered)
+		out.Fault("lower-response-delayed", st.Sent)
+	}
+
 	out.Fault("requester-stall-window", stalls)
 	out.Fault("back-pressure(requester-send-blocked)", w.Probes["requester-send-blocked"])
 
@@ -209,8 +214,8 @@ const memRule = "random assemblies: 1-3 scripted requesters -> [ROB] -> 0-2 cach
 
 func init() {
 	real := []string{"mem/cache/writeback", "mem/cache/writethroughcache (3 write policies)", "mem/rob", "mem/idealmemcontroller", "mem/simplebankedmemory", "mem/dram (all presets)", "mem.Storage", "noc/directconnection", "messaging.Port", "timing.SerialEngine"}
-	stubs := []string{"requesters (harness scripts + flat-memory oracle)"}
-	faults := []string{"requester-stall-window", "back-pressure(requester-send-blocked)"}
+	stubs := []string{"requesters (harness scripts + flat-memory oracle)", "adversarial lower memory (1 run in 8): flat-memory semantics, seeded delays, reordered responses"}
+	faults := []string{"requester-stall-window", "back-pressure(requester-send-blocked)", "lower-response-delayed", "lower-response-reordered"}
 
 	kit.Register(kit.Spec[Config]{
 		ID: "C16", Level: "exploration",
